@@ -150,7 +150,7 @@ Fixpoint expr_of (c : ectx) (v : pyval) (tr : bool) {struct v} : expr :=
       end in
   match v with
   | VCommented x _ => expr_of c x tr
-  | VTrailing x t => expr_of c x (match t with [] => false | _ => true end)
+  | VTrailing x t => expr_of c x (tr || match t with [] => false | _ => true end)
   | VInt z => num (EInt z) n_int None
   | VBool b => EName (if b then s_True else s_False)
   | VNone => EName s_None
